@@ -33,6 +33,19 @@ func verifHarnessC18() {
 	verifAssert(err == nil, "C18.open-err")
 	m := newVModel(len(kp.keys))
 	ops := vOpsFromMask(verifParam("ops"))
+	// premerge: an earlier merge generation (history, Merge, restart = adoption) before the one under test, so
+	// that the data directory already holds merged files and a hint file when the second merge runs
+	if pm := verifParam("premerge"); pm > 0 {
+		for step := 0; step < pm; step++ {
+			db = vStep(db, opts, kp, m, ops, "C18.pre")
+		}
+		verifAssert(db.Merge() == nil, "C18.premerge-err")
+		verifAssert(db.Close() == nil, "C18.premerge-close-err")
+		db, err = Open(opts)
+		verifAssert(err == nil, "C18.premerge-reopen-err")
+		verifSameMapping(db, kp, m, "C18.after-first-adoption")
+		verifReach("second-generation")
+	}
 	for step := 0; step < verifParam("k"); step++ {
 		db = vStep(db, opts, kp, m, ops, "C18")
 	}
